@@ -62,7 +62,36 @@ func genC15(t *rapid.T) *C15Case {
 		})
 	})
 	c := &C15Case{D: d, Reps: 40}
+	// families of similar command names so that a typo can be equally close to several
+	if rapid.IntRange(0, 2).Draw(t, "similarNames") == 0 {
+		fam := rapid.SampledFrom([][]string{{"pull", "push", "purl"}, {"start", "stark", "stare"}, {"list", "lint", "lisp"}}).Draw(t, "family")
+		d.EachCmd(func(cm *Cmd, _ []*Cmd) {
+			if len(cm.Cmds) >= 2 && len(cm.Cmds) <= 3 {
+				for i := range cm.Cmds {
+					cm.Cmds[i].Name = fam[i]
+					cm.Cmds[i].Aliases = nil
+				}
+			}
+		})
+	}
 	c.Args = genArgv(t, d, c15Argv)
+	if rapid.IntRange(0, 2).Draw(t, "nearMissCmd") == 0 {
+		// an unknown command word close to several command names (ties in the suggestion)
+		cur := &d.Root
+		var words []string
+		for len(cur.Cmds) > 0 && cur.Pos == nil {
+			if len(cur.Cmds) >= 2 && !cur.SubOpt && rapid.Bool().Draw(t, "stopForTypo") {
+				nm := []rune(cur.Cmds[rapid.IntRange(0, len(cur.Cmds)-1).Draw(t, "typoOf")].Name)
+				i := rapid.IntRange(0, len(nm)-1).Draw(t, "typoAt")
+				nm[i] = rapid.SampledFrom([]rune("abdlmrstzhknp")).Draw(t, "typoRune")
+				words = append(words, string(nm))
+				c.Args = words
+				break
+			}
+			cur = &cur.Cmds[rapid.IntRange(0, len(cur.Cmds)-1).Draw(t, "descend")]
+			words = append(words, cur.Name)
+		}
+	}
 	// INI text: same options from several sections, plus up to two faults
 	lines := genIniLines(t, d, 8, true)
 	lines = append(lines, genIniLines(t, d, 4, true)...)
@@ -193,6 +222,9 @@ func c15Oracle(c *C15Case) string {
 	}
 	if faults >= 2 {
 		st.Label("two simultaneous ini faults")
+	}
+	if strings.Contains(first["parse-error"], "did you mean") {
+		st.Label("did-you-mean suggestion")
 	}
 	if strings.Contains(first["parse-error"], "required") {
 		st.Label("required-list error")
